@@ -126,13 +126,15 @@ func Load(text, path string) (*Loaded, error) {
 	}
 	for _, f := range inst.OnFirstStartup {
 		if err := f(); err != nil {
-			l.Close()
+			l.closed = true
+			inst.ShutdownCallbacks() // (the load lock is already held)
 			return nil, fmt.Errorf("first startup callback: %v", err)
 		}
 	}
 	for _, f := range inst.OnStartup {
 		if err := f(); err != nil {
-			l.Close()
+			l.closed = true
+			inst.ShutdownCallbacks()
 			return nil, fmt.Errorf("startup callback: %v", err)
 		}
 	}
